@@ -77,6 +77,10 @@ theorem opActs_noCancel (cfg : Cfg) (x : Sim) (op : Op) (h : op ≠ .drain) : Ac
     simp only [opActs, List.mem_append, List.mem_cons, not_or]
     exact ⟨cancel_not_mem_repeat _ hl _, by simp, cancel_not_mem_repeat _ hw _⟩
   | advance ms => simp [opActs]
+  | nudge ms => simp [opActs]
+  | tickAfter ms =>
+    simp only [opActs, List.mem_append, not_or]
+    refine ⟨⟨⟨by simp, cancel_not_mem_repeat _ hw _⟩, by simp⟩, cancel_not_mem_repeat _ hl _⟩
   | arriveTick p =>
     have hs' := cancel_not_mem_settle x.hold (x.s.n + 1)
     have hl' : Act.cancel ∉ (Act.loopStep 0 :: settleActs x.hold (x.s.n + 1)) := by
